@@ -20,6 +20,13 @@ MINIMA = {"*": {"partitions": 20000, "lineages": 30, "divisions_checked": 100, "
                 "zero_propensity_cells": 5, "divisions_with_decoy_triggers": 50}}
 
 
+SANITIZE_TIERS = ("thorough",)
+
+
+def sanitize_subset(cases):
+    return [c for c in cases if c["kind"] == "lineage"][:40] + [dict(c, n=300) for c in cases if c["kind"] == "split"][:6]
+
+
 def generate(tier, seed):
     rnd = util.rng(PROPERTY, tier, seed, "cases")
     cases = []
